@@ -789,6 +789,8 @@ def run_aspire(cfg: dict, ids: IdTable | None = None, role="single", resume_file
             minipcn_stub.SPLIT = c["split"]
             minipcn_stub.SCALE = emcee_stub.SCALE = c["scale"]
             minipcn_stub.MAX_SAMPLE_CALLS = emcee_stub.MAX_SAMPLE_CALLS = c["budget"]
+        if c.get("explicit_none") and resume_file is None:
+            kw["resume_from"] = None        # "not resuming", stated explicitly (resume_from=ckpt if resume else None)
         tr.aspire = a
         result = a.sample_posterior(**kw)
     except InjectedFault as ex:
